@@ -47,3 +47,4 @@ pub fn c09_version_next_is_newer() {
     let n = v.next();
     assert!(v < n && !(n <= v) && v != n);
 }
+include!("/verif/kani/incrate/gen/repo_zonetree.rs");
